@@ -602,5 +602,5 @@ func c09ClassifiedAddressIsSet(c *core.Ctx) {
 			c.Decide(stored, "R9.3", fmt.Sprintf("classified-address-is-set:%s#%d", core.FuncName(fn), n), c.Pos(in), "the classified field was stored before the test", core.FuncName(fn)+" classifies the field "+strings.Join(path, ".")+" of the object it is constructing with IsLoopback() before that field is assigned: the address is still nil, IsLoopback() is false, and every face made by this constructor — also one to the loopback address — becomes non-local, so a local application attached that way has its /localhost exchanges with the forwarder dropped")
 		})
 	}
-	c.Floor("R9.3", "IsLoopback classifications in fw/face", n, 3)
+	c.Floor("R9.3", "IsLoopback classifications in fw/face", n, 1) // the constructors may share one classifying helper
 }
